@@ -329,14 +329,15 @@ def tlc_ok(res, what):
     return res.violated is None
 
 
-def validate_trace(module, trace_path, cfg=None, timeout=600, env=None, dfs=False, heap="8g"):
+def validate_trace(module, trace_path, cfg=None, timeout=600, env=None, dfs=False, heap="8g", json_sink=None):
     """Trace validation idiom: the trace spec declares INVARIANT NotAccepted (l <= Len(Log));
     the trace is ACCEPTED iff TLC reports that invariant violated.  Returns
     (accepted, matched_prefix_len, TlcResult)."""
     e = {"TRACE": trace_path}
     if env:
         e.update(env)
-    res = run_tlc(module, cfg=cfg, workers=1, timeout=timeout, env=e, dfs=dfs, heap=heap, collect_json=False)
+    res = run_tlc(module, cfg=cfg, workers=1, timeout=timeout, env=e, dfs=dfs, heap=heap,
+                  collect_json=json_sink is not None, json_sink=json_sink)
     if res.error:
         raise FrameworkError(res.error)
     if res.violated == "NotAccepted":
